@@ -5,6 +5,7 @@
 
 struct SorterSpec {
 	size_t max_mem = 0;		// 0 = leave default
+	bool set_zero = false;		// call set_max_memory(0): clamped to the minimum (1 byte in the MTBL_VERIF build)
 	std::string tmpdir;
 	mtbl_threadpool *pool = nullptr;
 	int finish = 0;			// 0 iterate, 1 mtbl_sorter_write to a writer + read back, 2 destroy without iterating
